@@ -1,4 +1,4 @@
-"""C16 -- files survive rope byte-for-byte apart from the intended edit (clauses R16.1-R16.10)."""
+"""C16 -- files survive rope byte-for-byte apart from the intended edit (clauses R16.1-R16.11)."""
 from __future__ import annotations
 
 import ast
@@ -56,6 +56,7 @@ def check(ctx, res) -> None:
     first_import_line_rule(ctx, res, "R16.8")
     coding_name_alphabet_rule(ctx, res, "R16.9")
     cookie_line_rule(ctx, res, "R16.10")
+    encoding_from_text_rule(ctx, res, "R16.11")
 
 
 def _check_main(ctx, res) -> None:
@@ -501,14 +502,15 @@ def cookie_line_rule(ctx, res, rule: str) -> None:
               for x in walk_local(f.node) if isinstance(x, ast.Assign) and isinstance(x.value, ast.Constant)
               and isinstance(x.value.value, (bytes, str)) for t in x.targets if isinstance(t, ast.Name)}
     stops = []
-    for lp in [x for x in walk_local(f.node) if isinstance(x, ast.For)]:
-        for st in ast.walk(lp):
-            if isinstance(st, ast.If) and isinstance(st.test, ast.UnaryOp) and isinstance(st.test.op, ast.Not) \
-                    and isinstance(st.test.operand, ast.Call) and call_name(st.test.operand) == "match" \
-                    and any(isinstance(b, (ast.Return, ast.Break)) for b in st.body):
-                a0 = st.test.operand.args[0] if st.test.operand.args else None
-                if isinstance(a0, ast.Name) and a0.id in consts:
-                    stops.append((st, consts[a0.id]))
+    scfg = CFG(f.node)
+    for nd in scfg.nodes:  # an exit from the line loop taken when a `match(<blank pattern>, line)` FAILED (read off the guards)
+        if nd.kind != "stmt" or not isinstance(nd.ast, (ast.Return, ast.Break)) or not scfg.loop_guards(nd.id):
+            continue
+        for t, pol in scfg.guards(nd.id):
+            if not pol and isinstance(t, ast.Call) and call_name(t) == "match" and t.args:
+                a0 = t.args[0]
+                if isinstance(a0, ast.Name) and a0.id in consts and "coding" not in consts[a0.id]:
+                    stops.append((nd.ast, consts[a0.id]))
     if not stops:
         res.add(rule, "read_str_coding|stops-at-code", False, f"{f.unit.rel}:{f.node.lineno}",
                 "the second line is examined whatever the first line is: `import os` / `# coding: latin-1` declares nothing for the interpreter "
@@ -542,3 +544,28 @@ def cookie_line_rule(ctx, res, rule: str) -> None:
             f"{nlines} line(s) are examined for the encoding declaration, the interpreter examines 2: "
             + ("a declaration on line 2 (below a shebang) is not seen and the file is treated as UTF-8" if nlines < 2 else
                "a `coding:` comment further down, which the interpreter ignores, changes the codec rope uses"), function=f.qualname)
+
+
+def encoding_from_text_rule(ctx, res, rule: str) -> None:
+    """R16.11: text is encoded with the codec IT declares.  The writer hands the text to the encoder without an explicit
+    encoding, so that the encoder chooses it from the coding line of the text being written (R16.1) -- an encoding
+    remembered from the last read is the declaration of the OLD text, and an edit may change or remove that line."""
+    from .common import inlined
+    idx = ctx.idx
+    wf = idx.need_func("rope.base.change._ResourceOperations.write_file")
+    n = 0
+    for c in calls_in(inlined(idx, wf)):
+        if idx.resolve(wf.unit.modname, c.func) != ENC and call_name(c) != "unicode_to_file_data":
+            continue
+        n += 1
+        enc_params = [p for p in idx.need_func(ENC).call_params()]
+        given = [k.value for k in c.keywords if k.arg == "encoding"]
+        if "encoding" in enc_params and enc_params.index("encoding") < len(c.args):
+            given.append(c.args[enc_params.index("encoding")])
+        given = [g for g in given if not (isinstance(g, ast.Constant) and g.value is None)]
+        ok = not given
+        res.add(rule, f"write_file|encoder-call#{n}", ok, f"{wf.unit.rel}:{c.lineno}",
+                "the encoder is left to choose the encoding from the text it is given" if ok else
+                f"the writer passes `encoding={ast.unparse(given[0])}` to the encoder, bypassing the choice from the text: when an edit changes or removes the coding "
+                "line, the new text is encoded with the OLD declaration -- the bytes on disk do not match the cookie they carry", function=wf.qualname)
+    res.floor(rule, "encoder calls in write_file", n, 1)
